@@ -148,6 +148,13 @@ func verifCLICheck(a, b JsonNode, fi int) string {
 				return fmt.Sprintf("binary %d %v: unwritable -o path gives exit %d", bi, fs.args, rbad.exit)
 			}
 		}
+		// git diff driver: prints the same rendering for the same options and exits 0 whatever the difference
+		if fs.format == "jd" {
+			rg := verifExec(bin, "", append(append([]string{"-git-diff-driver"}, fs.args...), "name", fa, "hex", "100644", fb, "hex", "100644")...)
+			if rg.exit != 0 || rg.stdout != want {
+				return fmt.Sprintf("binary %d %v: -git-diff-driver: exit %d stdout %q, library %q", bi, fs.args, rg.exit, rg.stdout, want)
+			}
+		}
 		// round trip through -p (not for colour output; merge only in its domain)
 		if r.exit == 1 && !(len(fs.args) > 0 && fs.args[0] == "-color") && verifDomain(a, b, fs.opts) && !isVoid(a) && !isVoid(b) &&
 			(fs.format != "patch" || (verifPointerExpressible(a) && verifPointerExpressible(b))) {
